@@ -534,6 +534,9 @@ impl<'a, 'c, 'p, D: TestDoc> Exec<'a, 'c, 'p, D> {
     Case { scn: self.scn.clone(), faults: self.ctl.ch.borrow().seq() }
   }
   fn violation(&self, key: &str, what: &str) {
+    if std::env::var_os("C09_TRACE").is_some() {
+      eprintln!("C09_TRACE {key}: {what} :: {}", serde_json::to_string(&self.case()).unwrap_or_default());
+    }
     self.ctx.violation(key, &format!("[{:?}] {what}", self.scn.doc), &self.case());
   }
   fn target_id(&self, t: Tg) -> String {
@@ -578,16 +581,19 @@ impl<'a, 'c, 'p, D: TestDoc> Exec<'a, 'c, 'p, D> {
       }
       Op::Sign { target } => {
         let id = self.target_id(target);
-        let frag = id.rsplit_once('#').map(|p| p.1.to_string()).unwrap_or_default();
+        let frag = id.rsplit_once('#').map(|p| format!("#{}", p.1)).unwrap_or_default();
         let doc = &self.doc;
         Res::Sign(guard(|| block_on(doc.create_jws(st, &frag, b"c09 payload", &JwsSignatureOptions::default()))))
       }
     }
   }
 
+  /// (Fragments are passed with their leading '#': a bare fragment that happens to start with "did" — one kid
+  /// thumbprint in 64^3 does — is taken for a full DID URL by the document's query parser and not found; that is
+  /// not a storage matter and would make the check depend on the random key.)
   /// create_jws with the faults off + verify_jws: `Err(reason)` if the method cannot be used for signing.
   fn usable(&self, id: &str) -> Result<(), String> {
-    let frag = id.rsplit_once('#').map(|p| p.1.to_string()).unwrap_or_default();
+    let frag = id.rsplit_once('#').map(|p| format!("#{}", p.1)).unwrap_or_default();
     debug_assert!(!self.ctl.armed.get());
     match guard(|| block_on(self.doc.create_jws(&self.st, &frag, b"usable?", &JwsSignatureOptions::default()))) {
       Ok(Ok(jws)) => match guard(|| self.doc.verify(&jws)) {
